@@ -197,6 +197,7 @@ type Explorer struct {
 	inFreshLoad bool
 	notes       map[int]*Term // rule-defined relation attached to a term (undone on backtracking)
 	mults       map[int]int64 // term is known to be a multiple of this modulus (undone on backtracking)
+	inLin       bool          // linProve is running (it must not recurse through lower/upper helpers)
 	depth       int           // prover recursion depth
 	ftrail      []factTrail
 	events      []Event
